@@ -171,7 +171,8 @@ Lemma tx_pulse_train_lemma n ins : 1 <= n ->
 Proof.
   intros Hn.
   assert (H0 : div_phase n (0 mod (2 * n)) (g_tx cgr_init) (g_zpos cgr_init)).
-  { rewrite Z.mod_0_l by lia. unfold div_phase. cbn. destruct (Z.ltb_spec 0 n); [|lia]. repeat split; auto; lia. }
+  { rewrite Z.mod_0_l by lia. unfold div_phase. cbn [g_tx g_zpos cgr_init cd_q cd_clk]. change (0 =? 0) with true. cbv iota.
+    destruct (Z.ltb_spec 0 n); [|lia]. repeat split; auto; lia. }
   pose proof (tx_run n Hn ins cgr_init 0 ltac:(lia) H0) as H. cbn zeta in H. rewrite Z.add_0_l in H.
   unfold cgr_pulse. destruct (div_phase_step n _ _ _ Hn H) as [_ E]. exact E.
 Qed.
@@ -195,7 +196,7 @@ Proof.
     rewrite and1_bits; auto; [lia|]. destruct Brx as [-> | ->]; destruct Bz as [-> | ->]; cbn; auto. }
   split.
   - unfold cgr_step, synced. rewrite Hstart, Hf, fsm_ref. cbn [Z.eqb Pos.eqb]. cbn [g_fsm g_active g_zrx g_rx g_zsamp upd ClockSyncFSM_o_active].
-    repeat split; auto. rewrite edge_step_bits; auto.
+    refine (conj eq_refl (conj eq_refl (conj _ Hs))). rewrite edge_step_bits; auto.
   - unfold cgr_sample. rewrite Hp, Ha. destruct (p =? n); reflexivity.
 Qed.
 
@@ -225,8 +226,9 @@ Proof.
   { unfold cgr_start. rewrite Ha, Hz. reflexivity. }
   assert (H1 : synced n (0 mod (2 * n)) c1).
   { rewrite Z.mod_0_l by lia. subst c1. unfold cgr_step, synced. rewrite Hstart, Hf, fsm_ref. cbn [Z.eqb Pos.eqb].
-    cbn [g_fsm g_active g_zrx g_rx g_zsamp upd ClockSyncFSM_o_active]. repeat split; auto.
-    - rewrite edge_step_bits; auto. rewrite Hz; auto.
+    cbn [g_fsm g_active g_zrx g_rx g_zsamp upd ClockSyncFSM_o_active].
+    refine (conj eq_refl (conj eq_refl (conj _ _))).
+    - rewrite edge_step_bits; auto.
     - apply div_phase_reset; auto. }
   pose proof (synced_run n Hn rxs c1 0 ltac:(lia) Hb H1) as H. rewrite Z.add_0_l in H.
   assert (Bl : isbit 0) by auto.
